@@ -135,6 +135,15 @@ func (c CacheWithVariableTTL[K, V]) Size() int     { return len(c.c.m) }
 func (c CacheWithVariableTTL[K, V]) Close()        {}
 
 // Evict removes k (one step) and calls the deletion listener (a later step), like expiry/eviction does.
+// Keys lists the keys the cache holds (harness-side inspection, not a scheduling point).
+func Keys[K comparable, V any](cc CacheWithVariableTTL[K, V]) []K {
+	var ks []K
+	for k := range cc.c.m {
+		ks = append(ks, k)
+	}
+	return ks
+}
+
 func Evict[K comparable, V any](cc CacheWithVariableTTL[K, V], k K) {
 	sched.Point("otter.evict.remove")
 	v, ok := cc.c.m[k]
